@@ -9,13 +9,14 @@ def check(run):
     rng, th = run.rng, run.tier == "thorough"
     S = cc.Spec()
     scs = []
-    pres = [0, 1, 2500, 999999999999, 10 ** 11, rng.randrange(10 ** 12)]
+    pres = [0, 1, 2500, 999999999999, 10 ** 11, 99, 100, 9999, 10 ** 6] + [rng.randrange(10 ** rng.randrange(1, 13)) for _ in range(30 if th else 5)]
     for pre in pres:
-        finals = [0, 1, max(0, pre - 1), pre, pre + 1, 10 ** 12 - 1, 2 ** 63, 2 ** 64 - 1, rng.randrange(2 ** 64)]
+        finals = [0, 1, max(0, pre - 1), pre, pre + 1, 10 ** 12 - 1, 10 ** 12, 2 ** 32, 2 ** 63, 2 ** 64 - 1, rng.randrange(2 ** 64), rng.randrange(pre + 1)]
         for final in finals:
             for cur in ((978, 826, 752) if th else (rng.choice([978, 826, 752]),)):
                 for _ in range(3 if th else 1):
-                    tok = "".join(rng.choice("ABCDEFabcdef0123456789-_.") for _ in range(rng.randrange(1, 17)))
+                    # arbitrary CP437 text: ASCII, accented letters, box drawing, Greek, symbols
+                    tok = "".join(rng.choice("ABCDEFabcdef0123456789-_. éüñßÄ£¥░│╬αΩ±÷°") for _ in range(rng.randrange(1, 17)))
                     receipt = rng.choice([1, 9999, rng.randrange(1, 10000)])
                     sc = cc.Scenario(S, {"amount": pre, "cur": cur, "max": 2}).start()
                     cfg = sc.cfg
@@ -27,7 +28,11 @@ def check(run):
                     sc.ops.append("begin:" + "other".encode().hex())
                     sc.exchange(S.reservation(cur, pre, "other"), [S.status_info({0x27: 0, 0x87: 77}), S.completion()])
                     sc.exp_results.append("Ok")
-                    amount, trace, time, date, tid = rng.randrange(10 ** 12), rng.randrange(10 ** 6), rng.choice([0, 1, 93001, 235959]), rng.choice([101, 517, 1231, 0]), rng.choice([0, 1, 52523535, 99999999])
+                    amount = rng.choice([0, 10 ** 12 - 1, rng.randrange(10 ** 12)])
+                    trace = rng.choice([0, 999999, rng.randrange(10 ** 6)])
+                    time = rng.choice([0, 1, 93001, 235959, 999999, rng.randrange(10 ** 6)])
+                    date = rng.choice([101, 517, 1231, 0, 9999, rng.randrange(10 ** 4)])
+                    tid = rng.choice([0, 1, 52523535, 99999999, rng.randrange(10 ** 8)])
                     sc.ops.append("commit:%s:%d" % (tok.encode().hex(), final))
                     # two status informations: the summary must reproduce the LAST one
                     sc.exchange(S.partial_reversal(receipt, cur, pre - min(pre, final), tok),
@@ -45,7 +50,7 @@ def check(run):
     report_diffs(run, diffs, "coq/Client.v", "zvt_feig_terminal::feig", "client")
     if any(not v.get("no_failing_input_found") for v in run.violations):
         run.violations = [v for v in run.violations if not v.get("no_failing_input_found")]
-    return vlib.finish(run, trusted_base=TB, assumptions=["64-bit usize", "ASCII tokens",
+    return vlib.finish(run, trusted_base=TB, assumptions=["64-bit usize", "tokens over a CP437 alphabet (ASCII + accented, box drawing, Greek, symbols)",
                                                            "terminal id is rendered with to_string(): leading zeros of the 8-digit id are not kept (observation O7)"])
 
 
